@@ -174,7 +174,9 @@ def loadStr (lexFn : Str → Option Nat × List Token) (l : Listing) (s : Str) :
   else
     let nt := lexFn s
     let line : Line := { number := nt.1, tokens := nt.2 }
-    if line.tokens.isEmpty then
+    -- fix D19: the listed line must fit the line buffer too
+    if utf8Len (printLine line.number line.tokens) > maxLineLen then err Code.lineBufferOverflow
+    else if line.tokens.isEmpty then
       match line.number with
       | some n => .ok (l.remove (some n)).1
       | none => .ok l
